@@ -122,7 +122,9 @@ def ensure_makefile():
 
 def make(targets, timeout=1800):
     """flock'ed incremental make of the given .vo targets.  Returns (ok, output)."""
+    t_wait = time.time()
     lock = _flock()
+    LOCK_WAIT[0] += time.time() - t_wait
     try:
         ensure_makefile()
         regenerate_tables()
@@ -135,6 +137,7 @@ def make(targets, timeout=1800):
 
 
 TRANSLATOR_STATUS = {}
+LOCK_WAIT = [0.0]   # seconds this process spent waiting for the shared build lock
 
 
 def regenerate_tables():
@@ -668,6 +671,7 @@ def finish(prop, run, ev, cov, violations, corr_fail, spec_fail, forb):
     cov["not_modelled"] = list(prop.not_modelled)
     ev["assumptions"] = list(prop.assumptions)
     ev["wall_s"] = round(time.time() - run.t0, 2)
+    cov["build_lock_wait_s"] = round(LOCK_WAIT[0], 2)
     ev["violations"] = violations
     if run.notes:
         cov["notes"] = run.notes
